@@ -389,6 +389,49 @@ def main(argv=None):
                 known_hits.setdefault(kf[0]['id'], [kf[0], 0])[1] += 1
                 continue
             violations.append((r['case'], cand))
+    # abstract (stubbed-kernel) counterexamples that no slice realised: look for a real input with the harness' concretiser.
+    # This only ever runs when the solver has already produced an abstract counterexample; whatever it finds is replayed like any other witness.
+    if unconfirmed and not violations and hasattr(hm, 'realise'):
+        t_r = time.time()
+        rnd = random.Random(seed + 12345)
+        seen_abs = set()
+        picked = []
+        for r in results:
+            if r['case'].get('layer') == 'L1' and any(not c.get('confirmed') and not c.get('duplicate') for c in r['candidates']):
+                key = (r['case'].get('fn'), r['case'].get('n'), r['case'].get('order'), r['case'].get('metric'), r['case'].get('contract'))
+                if key not in seen_abs:
+                    seen_abs.add(key)
+                    picked.append(r['case'])
+        realised = 0
+        tried = 0
+        for case in sorted(picked, key=lambda c: -(c.get('n') or 0))[:10]:
+            hit = False
+            for case2, inputs in hm.realise(case, rnd):
+                if time.time() - t_r > cfg.get('realise_budget_s', 90) or hit:
+                    break
+                tries = [inputs]
+                rep = getattr(hm, 'repair', None)
+                if rep is not None:
+                    try:
+                        tries += list(rep(real(), case2, inputs))[:8]
+                    except Exception:
+                        pass
+                for inp in tries:
+                    tried += 1
+                    conc = run_concrete(hm, case2, inp, timeout_s=10)
+                    if conc['status'] == 'ok' and conc['failed']:
+                        violations.append((case2, dict(kind='obligation', label=conc['failed'][0], inputs=inp, confirmed=True)))
+                        hit = True
+                        realised += 1
+                        break
+                    if conc['status'] == 'timeout':
+                        violations.append((case2, dict(kind='timeout', label='timeout', inputs=inp, confirmed=True)))
+                        hit = True
+                        realised += 1
+                        break
+        realise_info = dict(abstract_cases=len(picked), concrete_runs=tried, realised=realised, seconds=round(time.time() - t_r, 1))
+    else:
+        realise_info = None
     # re-confirm through the official replay path, one per distinct (label, kind)
     reported = []
     seenk = set()
@@ -414,7 +457,7 @@ def main(argv=None):
     cov = dict(
         states=agg['paths'], transitions=max(agg['decisions'], 0), traces_validated_against_impl=validated,
         samples=samples or [dict(note='no path explored')], obligations=agg['obligations'], discharged=agg['discharged'],
-        unknown=agg['unknown'], unconfirmed_counterexamples=unconfirmed, duplicate_counterexamples_not_replayed=duplicates, float64_probe_inputs_replayed_ok=probes_ok, unconfirmed_samples=unconfirmed_samples,
+        unknown=agg['unknown'], unconfirmed_counterexamples=unconfirmed, duplicate_counterexamples_not_replayed=duplicates, abstract_counterexample_realisation=realise_info, float64_probe_inputs_replayed_ok=probes_ok, unconfirmed_samples=unconfirmed_samples,
         not_encodable_paths=len(notenc), not_encodable_samples=sorted(set(notenc))[:5],
         path_outcomes=outcomes, structural_cases_enumerated=total_cases, infeasible_paths_pruned=agg['infeasible'], branch_feasibility_unknown_explored_both=agg['decide_unknown'], structural_cases=len(cases), cases_skipped_budget=skipped,
         cases_truncated=truncated, validation_mismatch=mism, validation_skipped=vskip,
